@@ -17,6 +17,7 @@ from lib import vf
 CFG = """SPECIFICATION %(spec)s
 CONSTANTS
   MaxRoutes = %(n)d
+  MaxGone = %(gone)d
   PatSel <- %(pats)s
   PathSel <- %(paths)s
   HostSel <- MCAllHosts
@@ -29,11 +30,12 @@ WORKERS = 8
 FILES = ["route/common_test.go", "route/c03_test.go"]
 
 
-UNI = {"full": ("MCAllPats", "MCAllPaths"), "core": ("MCCorePats", "MCCorePaths"), "mini": ("MCMiniPats", "MCMiniPaths")}
+UNI = {"full": ("MCAllPats", "MCAllPaths"), "core": ("MCCorePats", "MCCorePaths"), "mini": ("MCMiniPats", "MCMiniPaths"),
+       "tiny": ("MCTinyPats", "MCTinyPaths")}
 
 
-def cfg(spec, n, uni="full", inv=False):
-    return CFG % dict(spec=spec, n=n, pats=UNI[uni][0], paths=UNI[uni][1], inv=(inv if isinstance(inv, str) else INV) if inv else "")
+def cfg(spec, n, uni="full", inv=False, gone=0):
+    return CFG % dict(spec=spec, n=n, gone=gone, pats=UNI[uni][0], paths=UNI[uni][1], inv=(inv if isinstance(inv, str) else INV) if inv else "")
 
 
 def count_lines(path):
@@ -61,6 +63,7 @@ def run(ctx):
         "a table in which two different host patterns denote the same host on the connection at hand (a.io / a.io:80 / A.io), or two paths of one host that the matcher cannot tell apart (/X/y and /x/y under iprefix, /x* and /x under glob), is outside the claim (the statement does not rank them); such expectations are generated as 'not posed' and skipped",
         "nested braces, negated classes, ranges and '**' in host patterns and glob paths beyond literal + trailing '*' are outside the universe; path characters sorting below '*' (space ! \" # $ % & ' ( )) are outside the universe",
         "Table.LookupHost (TCP+SNI): only 'a route whose host is literally the server name, path /, serves it' is claimed; fallback to host-less or wildcard routes for SNI lookups is not judged",
+        "the table is what a history of route commands leaves: routes that were added and deleted again (one, thorough two, per table; the three forms of `route del`) must neither serve nor shadow; such tables are built both by NewTable (text) and by NewTableCustom (command list of the custom back end), plain tables alternate between the two builders",
         "one target per route (the service name encodes the route), so the picker plays no role here (C04)",
     ]
     # 1. well-definedness of the declarative choice on the model
@@ -81,9 +84,13 @@ def run(ctx):
 
     # 2. case generation
     cases = os.path.join(ctx.tmp, "c03.cases")
-    gens = [("full<=1", cfg("Spec", 1, "full"), 300), ("core<=2", cfg("Spec", 2, "core"), 600)]
+    # "tiny ... +1 deleted": every table of <=2 routes that a history with one added-and-deleted
+    # route leaves (the deleted route must neither serve nor shadow)
+    gens = [("full<=1", cfg("Spec", 1, "full"), 300), ("core<=2", cfg("Spec", 2, "core"), 600),
+            ("tiny<=2 +1 deleted", cfg("Spec", 2, "tiny", gone=1), 600)]
     if ctx.thorough:
-        gens = [("full<=2", cfg("Spec", 2, "full"), 1500), ("mini<=3", cfg("Spec", 3, "mini"), 1500)]
+        gens = [("full<=2", cfg("Spec", 2, "full"), 1500), ("mini<=3", cfg("Spec", 3, "mini"), 1500),
+                ("tiny<=2 +2 deleted", cfg("Spec", 2, "tiny", gone=2), 900), ("mini<=1 +1 deleted", cfg("Spec", 1, "mini", gone=1), 900)]
     for name, text, to in gens:
         g = ctx.tlc("Match_MC", cfg_text=text, workers=WORKERS, json_sink=cases, timeout=to)
         ctx.log("Gen %s: %d transitions, %d states, %.0fs" % (name, g.generated, g.distinct, g.wall))
@@ -96,7 +103,7 @@ def run(ctx):
         sims.append((6, 500))
     for n, num in sims:
         before = count_lines(cases)
-        sim = ctx.tlc("Match_MC", cfg_text=cfg("SimSpec", n), simulate=num, depth=n + 3, seed=ctx.seed,
+        sim = ctx.tlc("Match_MC", cfg_text=cfg("SimSpec", n, gone=1), simulate=num, depth=n + 5, seed=ctx.seed,
                       json_sink=cases, timeout=ctx.pick(300, 1500))
         made = count_lines(cases) - before
         ctx.log("Sim <=%d routes x %d random tables: %d (table, host, TLS) lines, %.0fs" % (n, num, made, sim.wall))
@@ -115,7 +122,8 @@ def run(ctx):
     s = r.summary
     ctx.log("replayed %d transitions = %d lookups + %d LookupHost calls (%d routed, %d unrouted, %d not posed), %d failed, %.0fs"
             % (s["lines"], s["lookups"], s["sni"], s["routed"], s["unrouted"], s["illposed"], s["fails"], r.wall))
-    if s["lookups"] == 0 or s["routed"] == 0 or s["unrouted"] == 0:
+    ctx.log("tables with a history (routes added and deleted again), each built by NewTable and by NewTableCustom: %d" % s["histories"])
+    if s["lookups"] == 0 or s["routed"] == 0 or s["unrouted"] == 0 or s["histories"] == 0:
         ctx.inconclusive("C03: vacuous replay (%s)" % json.dumps(s)[:300])
         return
     ctx.cover(traces_validated_against_impl=s["lines"], evaluations=s["lookups"] + s["sni"],
